@@ -111,6 +111,16 @@ claim("C03", "exploration",
       "natives being odd/even bitwise. Known finding KF-C03-odd-zero (sign of zero outputs at zero input components).",
       "DESIGN.md section 3 C03")
 
+claim("C02", "exploration",
+      "differential monitor: independent interpreter of the expanded real graphs vs float64 libm (tier 1) and a Ziv multiprecision oracle (tier 2); float32 exhaustive",
+      "Real absolute/acos/acosh/asin/asinh/square (+ hypot), expanded by the package's own definitions, are evaluated on every non-NaN float32 (thorough; every "
+      "2053rd bit pattern + +-4096-ulp neighbourhoods of the switch points in quick) and compared on the float lattice with the correctly rounded value: the "
+      "float64 libm value rounded once, re-judged by the mp oracle whenever it lies near a float32 rounding boundary or the distance reaches the target; float64 "
+      "and hypot pairs (|x|=|y|, ratios around 2^+-p, specials) are judged by the mp oracle directly. NaN domain and limits at 0/inf are part of the same comparison; "
+      "the <1e-5 rate claim is an exact count where enumerated and a Chernoff-bounded binomial test (alpha=1e-6) elsewhere.",
+      "Trusted: numpy float64 libm within 1 ULP(float64) for tier 1 (all doubtful cases re-judged), mpmath real functions under Ziv's two-precision agreement, vf.graph.interp_np.",
+      "DESIGN.md section 3 C02")
+
 SOURCE_COMMITS = []
 
 
